@@ -14,7 +14,7 @@ RULE = ('all ordered pairs of {K (every prefix), Cel, degF, degR}; every documen
         'distinct by (u, v, magnitude bucket)')
 SHARDS = {'quick': 16, 'thorough': 16}
 MIN_NONTRIVIAL = {'quick': 3000, 'thorough': 50000}
-REQUIRED_CLASSES = ['array-magnitude', 'temperature', 'temperature-prefixed-kelvin', 'temperature-identity', 'level-to-linear', 'linear-to-level',
+REQUIRED_CLASSES = ['magnitude-with-uncertainty', 'array-magnitude', 'temperature', 'temperature-prefixed-kelvin', 'temperature-identity', 'level-to-linear', 'linear-to-level',
                     'ratio', 'bel-neper', 'level-offset', 'log-identity', 'level-sum', 'level-difference', 'fraction-form',
                     'power-like', 'amplitude-like', 'neper']
 REQUIRED_MONITORS = ['repeated_value_query_compares', 'forward_compares', 'inverse_compares', 'identity_compares', 'sum_compares']
@@ -121,6 +121,7 @@ def _run(case, ctx):
     devs, mon, classes = [], {}, []
 
     as_array = case['k'] % 4 == 1        # every fourth magnitude of a pair goes through a NumPy array magnitude
+    uncertain = case['k'] % 4 == 3       # every fourth one carries a measurement uncertainty: the VALUE still follows the formula
 
     def conv(x, u, v, how='to'):
         if as_array:
@@ -145,7 +146,15 @@ def _run(case, ctx):
             if not (vals[0] == vals[1] == vals[2]) and not all(z != z for z in vals):
                 devs.append(dev('array-elements-converted-differently', dict(u=u, v=v, x=x, observed=vals)))
             return vals[1], q
-        q = Q(x, u)
+        if uncertain:
+            classes.append('magnitude-with-uncertainty') if 'magnitude-with-uncertainty' not in classes else None
+            mon['uncertain_magnitude_conversions'] = mon.get('uncertain_magnitude_conversions', 0) + 1
+            if case['k'] % 8 == 3 or x == 0:
+                q = Q(x, u, abse=abs(x) * 0.2 + 0.5)
+            else:
+                q = Q(x, u, rele=10)
+        else:
+            q = Q(x, u)
         if how == 'to':
             q.to(v)
             return float(q.magnitude.value), q
